@@ -116,40 +116,38 @@ Section Frames.
   Lemma forallb_app_true {A} (f : A -> bool) l1 l2 : forallb f l1 = true -> forallb f l2 = true -> forallb f (l1 ++ l2) = true.
   Proof. intros H1 H2. rewrite forallb_app, H1, H2. reflexivity. Qed.
 
-  (* a well-formed Trace (one label per column, one name per row) stays well formed under a successful trace_t *)
+  (* a well-formed Trace (one label per column, one name per row) stays well formed under EVERY trace_t: it is either
+     started afresh or — same names, hence same number of rows — extended by one column *)
   Lemma push_wf names reset (old : trace) lab res :
-    wf_trace num old = true -> reset = true \/ width_ok num old (length names) -> length res = length names ->
+    wf_trace num old = true -> length res = length names ->
     wf_trace num (push num names reset old lab res) = true.
   Proof.
-    intros Hwf Hw Hl. unfold push, is_empty.
-    destruct (tr_values old) as [|c cs] eqn:E; cbn [orb].
+    intros Hwf Hl. unfold push.
+    destruct (afresh num old reset names) eqn:Ea.
     { unfold wf_trace. cbn [tr_index tr_values tr_names length forallb]. rewrite Hl, !Nat.eqb_refl. reflexivity. }
-    destruct reset.
-    { unfold wf_trace. cbn [tr_index tr_values tr_names length forallb]. rewrite Hl, !Nat.eqb_refl. reflexivity. }
-    destruct Hw as [Hw|Hw]; [discriminate|].
-    unfold wf_trace in *. cbn [tr_index tr_values tr_names]. rewrite E in *.
+    unfold afresh in Ea. apply orb_false_elim in Ea. destruct Ea as [Ea En]. apply orb_false_elim in Ea. destruct Ea as [Ee _].
+    apply negb_false_iff in En. apply names_eqb_eq in En.
+    unfold wf_trace in *. cbn [tr_index tr_values tr_names].
     apply andb_prop in Hwf. destruct Hwf as [H1 H2]. apply Nat.eqb_eq in H1.
     rewrite !app_length, H1. cbn [length]. rewrite Nat.eqb_refl. cbn [andb].
     apply forallb_app_true; [exact H2|]. cbn [forallb]. rewrite andb_true_r.
-    unfold width_ok in Hw. rewrite E in Hw. cbn [forallb] in H2. apply andb_prop in H2. destruct H2 as [H2 _].
-    apply Nat.eqb_eq in H2. apply Nat.eqb_eq. congruence.
+    apply Nat.eqb_eq. rewrite En. exact Hl.
   Qed.
 
   Lemma pushes_wf names reset : forall l (X : trace),
-    wf_trace num X = true -> reset = true \/ width_ok num X (length names) ->
+    wf_trace num X = true ->
     Forall (fun e => length (snd e) = length names) l ->
     wf_trace num (pushes num names reset X l) = true.
   Proof.
-    induction l as [|e l IH]; intros X Hwf Hw Hall; [exact Hwf|].
+    induction l as [|e l IH]; intros X Hwf Hall; [exact Hwf|].
     inversion Hall as [|? ? He Hl]; subst.
     change (pushes num names reset X (e :: l)) with (pushes num names reset (push num names reset X (fst e) (snd e)) l).
-    apply IH; [apply push_wf; assumption| |exact Hl].
-    destruct Hw as [Hw|Hw]; [left; exact Hw|right]. apply push_width; [right; exact Hw|exact He].
+    apply IH; [apply push_wf; assumption|exact Hl].
   Qed.
 
   Lemma push_nonempty names reset (Y : trace) lab res : tr_values (push num names reset Y lab res) <> [].
   Proof.
-    unfold push. destruct (is_empty num Y || reset); cbn [tr_values]; [discriminate|].
+    unfold push. destruct (afresh num Y reset names); cbn [tr_values]; [discriminate|].
     destruct (tr_values Y); discriminate.
   Qed.
 
@@ -181,13 +179,14 @@ Section Frames.
       names_valid num (vals_of s) t (names_of cfg (length (vals_of s)) a) ->
       py_pos (length tr) t = Some p -> length tr = length (status s) ->
       wf_trace num (nth p tr empty_trace) = true ->
-      reset = true \/ width_ok num (nth p tr empty_trace) (length (names_of cfg (length (vals_of s)) a)) ->
       traced_solve_t cfg a reset ev before after d o t s tr = ((s', tr'), out) ->
       out = Ret true \/ out = Ret false \/ out = Raise NonConvergenceError ->
       let X := nth p tr' empty_trace in
       to_dataframe num X = Ret (tr_index X, tr_names X, tr_values X) /\ tr_values X <> [].
     Proof.
-      intros Ha Hv Hp Hlen Hwf Hw Hrun Hout. cbv zeta.
+      intros Ha Hv Hp Hlen Hwf Hrun Hout. cbv zeta.
+      assert (Hw : reset = true \/ width_ok num (nth p tr empty_trace) (names_of cfg (length (vals_of s)) a))
+        by (right; apply wf_width_ok; exact Hwf).
       destruct (trace_of_run num sub absf ltb isfin zero cfg a reset ev before after ev_shape before_shape after_shape
                   d o t s tr p s' tr' out Ha Hv Hp Hlen Hw Hrun Hout) as (k & x & _ & _ & _ & _ & _ & Htr).
       set (names := names_of cfg (length (vals_of s)) a) in *.
@@ -255,7 +254,7 @@ Section LinkedFacts.
   Theorem linked_passes_spec t em cf : forall n k v tr p,
     names_valid num v t (names_of cfg (length v) a) ->
     py_pos (length tr) t = Some p ->
-    reset = true \/ width_ok num (nth p tr empty_trace) (length (names_of cfg (length v) a)) ->
+    reset = true \/ width_ok num (nth p tr empty_trace) (names_of cfg (length v) a) ->
     let R := linked_passes t em cf k n v tr in
     (fst (fst R), snd R) = plain_passes t em cf k n v /\
     shape num (fst (fst R)) = shape num v /\
@@ -276,7 +275,7 @@ Section LinkedFacts.
     assert (Hlen : length v1 = length v) by (apply (shape_length num); exact Hsh).
     assert (Hv1 : names_valid num v1 t (names_of cfg (length v1) a)).
     { rewrite Hlen. apply (names_valid_shape num v v1); [symmetry; exact Hsh|exact Hv]. }
-    assert (Hw1 : reset = true \/ width_ok num (nth p tr empty_trace) (length (names_of cfg (length v1) a)))
+    assert (Hw1 : reset = true \/ width_ok num (nth p tr empty_trace) (names_of cfg (length v1) a))
       by (rewrite Hlen; exact Hw).
     rewrite (trace_t_ok num zero cfg t (LIter k) a reset v1 tr p Hv1 Hp Hw1).
     rewrite Hlen.
@@ -286,7 +285,7 @@ Section LinkedFacts.
     assert (Hnew : nth p (upd p new tr) empty_trace = new) by (apply nth_upd_same; exact Hplt).
     specialize (IH (S k) v1 (upd p new tr) p).
     rewrite Hlen, upd_length, Hnew in IH. fold names in IH.
-    assert (Hw2 : reset = true \/ width_ok num new (length names)).
+    assert (Hw2 : reset = true \/ width_ok num new names).
     { destruct Hw as [Hw|Hw]; [left; exact Hw|right]. subst new. apply push_width; [right; exact Hw|apply snap_length]. }
     rewrite Hlen in Hv1. fold names in Hv1.
     specialize (IH Hv1 Hp Hw2). cbv zeta in IH. destruct IH as (I1 & I2 & I3 & I4 & I5).
